@@ -20,6 +20,27 @@ from enc import *
 import wl
 
 
+def restart_level(ctx, crate, crs, tag):
+    """A restart after a lazily added clause conflicts with the partial solution undoes the *whole* run (to its starting level):
+    every clause reported in that round - not only the first - may be violated by earlier decisions."""
+    import c14
+    c14.isolation(_Rename(ctx, "soft-isolation", "restart"), crate, crs, tag)
+
+
+class _Rename:
+    def __init__(self, ctx, a, b):
+        self._c, self._a, self._b = ctx, a, b
+
+    def __getattr__(self, n):
+        return getattr(self._c, n)
+
+    def ob(self, rule, *a, **k):
+        self._c.ob(rule.replace(self._a, self._b), *a, **k)
+
+    def floor(self, rule, *a, **k):
+        self._c.floor(rule.replace(self._a, self._b), *a, **k)
+
+
 def run(ctx):
     ctx.explanation = (
         "Static clause of C01 (necessary conditions; breaking any lets the solver accept assignments that violate a provider "
@@ -43,6 +64,7 @@ def run(ctx):
         assertions(ctx, crate, crs, tag)
         mech.drain_complete(ctx, "encoding", crate, crs, tag)
         ctx.guard("watch-list" + tag, wl.run, ctx, crate, crs, tag)
+        ctx.guard("restart" + tag, restart_level, ctx, crate, crs, tag)
         # the candidate lists the clauses are built from are the provider's (filter flag / map agreement, memoised under the right key)
         mech.memo_check(ctx, "candidate-lists", crate, crs, tag)
         mech.filter_siblings(ctx, crate, crs, tag, rule="candidate-lists")
